@@ -2,6 +2,7 @@ import SeqVerif.Model.ParserTok
 import SeqVerif.Model.SeqQLFilterLemmas
 import SeqVerif.Model.LegacyParserLemmas
 import SeqVerif.Model.SeqQLLexerLemmas
+import SeqVerif.Model.TokenizerLemmas
 import SeqVerif.Extracted.C12
 import SeqVerif.Props.C02
 /-!
@@ -317,6 +318,45 @@ theorem c12_in_is_disjunction (dp cs : Bool) (field : List Nat) (t : FT) (toks r
       ∀ env, a.eval env = (first.eval env || items.any fun x => x.eval env) :=
   (filterIn_ok h).2.2
 
+/-! ## one case rule: per field, for plain values and in-lists, in both query languages -/
+
+/-- the case rule of a field: the builtin `_exists_` is always case sensitive, every other field follows the configuration -/
+def fieldCase (c : Cfg) (field : List Nat) : Bool := if field = tokenExists then true else c.cs
+
+/-- **`field:v` and `field:in(v1, ..)` read their values under the SAME case rule** - the field's (`fieldCase`): once the
+field name, the `:` and a first value token are read, `parseSeqQLFieldFilter` is `parseFilterIn` resp.
+`parseFulltextSearchFilter` with exactly that flag; together with `c12_in_is_disjunction` (every list item goes through
+`fulltextFilter` with the flag `filterIn` was given): `in(v1, .., vn)` = `v1 or .. or vn` with each `vi` parsed as the
+plain filter `field:vi` would be - also for `_exists_`, whatever `conf.CaseSensitive` says. -/
+theorem c12_in_same_case_rule (c : Cfg) (toks : List LTok) (nm : List Rn) (tc tv : LTok) (r' : List LTok)
+    (hname : compositeToken toks = .ok (nm, tc :: tv :: r')) (hne : (nameBytes nm).isEmpty = false)
+    (hidx : indexType c.mapping (nameBytes nm) ≠ .noop) (hcolon : kwIn tc [.colon] = true)
+    (hval : kwIn tv [.empty] = false) (hnr : kwIn tv [.lbr, .lp] = false) :
+    (kwIn tv [.in_] = true → fieldFilter c toks
+        = filterIn c.dp (nameBytes nm) (indexType c.mapping (nameBytes nm)) (fieldCase c (nameBytes nm)) r') ∧
+    (kwIn tv [.in_] = false → fieldFilter c toks
+        = fulltextFilter c.dp (nameBytes nm) (indexType c.mapping (nameBytes nm)) (fieldCase c (nameBytes nm)) (tv :: r')) := by
+  have hne' : nameBytes nm ≠ [] := by
+    intro h; rw [h] at hne; simp at hne
+  constructor
+  · intro hin
+    simp [fieldFilter, hname, hne', hidx, hcolon, hval, hnr, hin, fieldCase]
+  · intro hin
+    simp [fieldFilter, hname, hne', hidx, hcolon, hval, hnr, hin, fieldCase]
+
+/-- **both query languages build the same term from the same text**: for a run of word runes (resp. any keyword value
+without wildcard) the SeqQL builders and the legacy `baseTokenBuilder` (`appendRuneInternal` rune by rune) end with
+the single text term `lowerIf cs runes` - the code points themselves when case sensitive, `unicode.ToLower` of each
+(the harness-supplied `Rn.lower`, ASCII or not, also when the lower case has another byte length) otherwise;
+C11 (`c11_text`, `c11_keyword`) shows this is the token the indexer stores. -/
+theorem c12_term_case_rule_agrees (cs : Bool) (ws : List Rn) (hne : ws ≠ []) :
+    ((∀ r, r ∈ ws → isWordRune r = true) → seqqlText cs ws = [[⟨false, lowerIf cs ws⟩]]) ∧
+    ((∀ r, r ∈ ws → r.cp ≠ wildcardCp) → seqqlKeyword cs ws = [⟨false, lowerIf cs ws⟩]) ∧
+    (ws.foldl TB.appendRuneInternal ⟨cs, [], [], []⟩).getTokens = [[⟨false, lowerIf cs ws⟩]] ∧
+    lowerIf cs ws = ws.map (fun r => if cs then r.cp else r.lower) :=
+  ⟨fun h => SV.Tok.seqqlText_word cs ws hne h, fun h => SV.Tok.seqqlKeyword_plain cs ws hne h,
+   SV.Tok.legacy_builder_word cs ws hne, rfl⟩
+
 /-! ## the SeqQL lexer and `ParseSeqQL` on strings (character level)
 
 `SV.Parser.lexNext` is `lexer.Next()` (spaces, `#` comments, token runs, `*`, the three quote kinds with
@@ -571,6 +611,18 @@ theorem c12_nesting_bounded_extracted (m : Nat → FType) (f : Nat) (toks : List
   refine ⟨⟨mx1, e1, fun hn => ?_⟩, ⟨mx2, e2, fun hn => ?_⟩⟩
   · exact (c12_nesting_bounded (tokSeqQL seqqlDefaultPanics seqqlMaxNest m) mx1 (by simp [tokSeqQL, e1]) f toks d n hn).1
   · exact (c12_nesting_bounded (tokLegacy legacyDefaultPanics legacyMaxNest m) mx2 (by simp [tokLegacy, e2]) f toks d n hn).2
+
+/-- the case flag: `parseSeqQLFieldFilter` computes it once (`conf.CaseSensitive`, forced to `true` for `_exists_`) and
+hands that same variable to the range, in-list and plain value parsers; `parseFilterIn` takes it as a parameter and
+passes it on to every value; the legacy builder lower-cases every rune with `unicode.ToLower` unless case sensitive -/
+theorem c12_x_case_flag :
+    caseFlagCalls = ["parseSeqQLFieldFilter(lex, mapping)", "  parseSeqQLTokenRange(fieldName, lex, caseSensitive)",
+      "  parseFilterIn(lex, fieldName, t, caseSensitive)", "  parseFulltextSearchFilter(lex, fieldName, t, caseSensitive)",
+      "parseFilterIn(lex, fieldName, t, caseSensitive)", "  parseFulltextSearchFilter(lex, fieldName, t, caseSensitive)",
+      "  parseFulltextSearchFilter(lex, fieldName, t, caseSensitive)"] ∧
+    caseFlagOverride = ["caseSensitive := conf.CaseSensitive", "if fieldName == seq.TokenExists", "caseSensitive = true"] ∧
+    appendRuneInternalBody = ["if !b.caseSensitive { r = unicode.ToLower(r) }", "b.term = utf8.AppendRune(b.term, r)"] := by
+  decide
 
 /-- the word-rune predicates of both text term builders are `IsLetter || IsNumber || '_' || '*'` (what
 `SV.Parser.isWordRune` transcribes: `r.letter || r.number || cp = 95 || cp = 42`), the lexer's token runes are
